@@ -148,3 +148,8 @@ def check(ctx):
     # ---- R04-j the shielded checkpoint is shielded whenever it yields (shared with C08/R08-0)
     from .common import shielded_checkpoint_is_shielded
     shielded_checkpoint_is_shielded(ctx, "R04-j")
+
+    # ---- R04-k "the right scope absorbs": a task group's scope must not absorb its own (stored) cancellation when a *native* cancel request
+    # interrupted the join afterwards - the native one has to propagate (shared with C05/R05-h)
+    from .common import shared_rules
+    shared_rules(ctx, "c05", {"R05-h": "R04-k"})
